@@ -174,6 +174,25 @@ def gen(repo):
         raise TranslateError("isPlausibleEpochMs: unexpected shape %r" % pl.strip())
     # repairs the model depends on (shape facts; the behaviour itself is tied by lockstep on images)
     truncates_tail = bool(re.search(r"resize_file\s*\(\s*_logPath", ld))
+    # how goodEnd (the torn-tail cut) is advanced: recognised shape = exactly one write to goodEnd inside the replay loop, namely
+    # `goodEnd = <streamoff>(log.tellg());` as the statement right after the `if (!log.read(buffer...)) { break; }` block, i.e. before
+    # any `continue` of the loop body; any other write to goodEnd, or a different position, is a shape the model does not have
+    good_end_ok = False
+    if truncates_tail:
+        mw = re.search(r"while\s*\(\s*log\.peek\(\)\s*!=\s*EOF\s*\)\s*\{", ld)
+        if not mw:
+            raise TranslateError("load: replay loop `while (log.peek() != EOF)` not found")
+        loop = ld[mw.end():cxxscan.match_brace(ld, mw.end() - 1)]
+        writes = re.findall(r"\bgoodEnd\s*(?:=(?!=)|\+=|-=|\+\+|--)|(?:\+\+|--)\s*goodEnd\b", loop)
+        after_read = re.search(r"if\s*\(\s*!\s*log\.read\(\s*reinterpret_cast<char \*>\(buffer\.data\(\)\)\s*,\s*totalLen\s*\)\s*\)\s*\{\s*break\s*;\s*\}\s*"
+                               r"goodEnd\s*=\s*static_cast<std::streamoff>\(\s*log\.tellg\(\)\s*\)\s*;", loop)
+        if len(writes) != 1 or not after_read or "continue" in loop[:after_read.end()]:
+            raise TranslateError("load: goodEnd is not advanced by `goodEnd = static_cast<std::streamoff>(log.tellg());` right after the complete body read "
+                                 "(writes to goodEnd in the loop: %d, expected statement %s, `continue` before it: %s) - the model's replayLoop counts every record that "
+                                 "was read completely" % (len(writes), "found" if after_read else "NOT found", bool(after_read and "continue" in loop[:after_read.end()])))
+        if len(re.findall(r"\bgoodEnd\b", ld.replace(loop, ""))) != 3:      # declaration, the comparison with fileSize, the resize_file argument
+            raise TranslateError("load: goodEnd is used outside the loop in an unexpected way")
+        good_end_ok = True
     # (a) load() itself never looks at the clock, (b) the constructor runs load(); <sweep>(); openLogFile(); and (c) the sweep
     # drops exactly the entries of _expiry with expiry <= now, from both maps
     sweeps_once = False
@@ -226,6 +245,8 @@ def gen(repo):
         str(bool(re.search(r"if\s*\(\s*_config\.maxCacheSize\s*==\s*0\s*\)\s*\{\s*return\s*;", uc))).lower())
     t += "/-- shape facts of `load`: cuts a torn log tail before the log is reopened for append; evaluates expiry once, after the replay -/\n"
     t += "def loadTruncatesTornTail : Bool := %s\ndef loadSweepsOnceAtEnd : Bool := %s\n" % (str(truncates_tail).lower(), str(sweeps_once).lower())
+    t += "/-- goodEnd = stream position right after every completely read record body, before any `continue` (the only write to goodEnd in the loop) -/\n"
+    t += "def loadGoodEndCountsEveryCompleteRecord : Bool := %s\n" % str(good_end_ok).lower()
     t += "/-- `JsonFileStore::saveToFile`: writes a sibling temp file and renames it over the target (true) / truncates the live file in place (false) -/\n"
     t += "def jsonSaveViaTempRename : Bool := %s\n" % str(via_tmp).lower()
     t += "end Iora.Gen.Kv\n"
